@@ -306,7 +306,8 @@ func init() {
 			"the pinned runtime's documented string cast (exporter.CastToString) is re-stated in the model for the YAML literal types",
 		},
 		BudgetQuick: 280 * time.Second, BudgetThorough: 1500 * time.Second,
-		Prepare: PrepareUniverse,
+		Prepare:     PrepareUniverse,
+		CaseTimeout: 900 * time.Second,
 		Run: func(w *W) {
 			L := 5
 			if !w.Env.Quick() {
